@@ -661,6 +661,9 @@ func (l *List) Combine3(sta funcGen.Stack[Value]) (*List, error) {
 
 func (l *List) CombineN(sta funcGen.Stack[Value]) (*List, error) {
 	if n, ok := sta.Get(1).(Int); ok {
+		if n < 1 {
+			return nil, errors.New("first argument in combineN needs to be greater than zero")
+		}
 		f, err := ToFunc("combineN", sta, 2, 1)
 		if err != nil {
 			return nil, err
